@@ -113,8 +113,12 @@ static void dump_obj(struct conf_node_object *obj, int depth)
             else if (n->subtype == CONF_STRING_FLOAT) {
                 uint64_t bits; memcpy(&bits, &n->parsed.p_double, 8);
                 printf("f%016llx", (unsigned long long)bits);
-            } else
-                printf("%u", n->parsed.p_interval);
+            } else {
+                /* a typed parse occupies the low four bytes; anything above is a stale string pointer */
+                uint64_t bits; memcpy(&bits, &n->parsed, 8);
+                if (bits >> 32) fputc('?', stdout);
+                else printf("%u", n->parsed.p_interval);
+            }
             break;
         }
         case CONF_INADDR: {
@@ -300,6 +304,7 @@ static void run_case(char **lines, int n)
 {
     int i;
     ctype_init();
+    (void)conf_get_root();   /* config_init(): every real caller registers an object first */
     for (i = 0; i < n; i++) {
         char *f[8];
         int nf;
